@@ -153,11 +153,13 @@ class _Base(Space):
 class CellSeqSpace(_Base):
     """every sequence of (zone, value) cells over a 9-letter alphabet x every chunking with >= 2 blocks."""
 
-    def __init__(self, fname, shape, kw, tag, letters2):
+    def __init__(self, fname, shape, kw, tag, letters2, max_blocks=None):
         self.fname, self.shape, self.kw = fname, shape, kw
         self.letters2 = letters2
         self.n = shape[0] * shape[1]
         self.chs = [c for c in chunkings(*shape) if len(c[0]) * len(c[1]) >= 2]
+        if max_blocks:
+            self.chs = [c for c in self.chs if len(c[0]) * len(c[1]) <= max_blocks]
         self.name = "%s_cells_%dx%d_%s" % (fname, shape[0], shape[1], tag)
         self.nl = len(ZL) * len(letters2)
         self.size = self.nl ** self.n * len(self.chs)
@@ -386,9 +388,10 @@ class ThreadsSpace(_Base):
 def build(tier):
     sp = []
     if tier == "quick":
-        sp.append(CellSeqSpace("stats", (1, 3), {}, "default", VL))
+        # quick: two-block chunkings only for stats (a Dask stats compute costs ~0.4 s per block)
+        sp.append(CellSeqSpace("stats", (1, 3), {}, "default", VL, max_blocks=2))
         sp.append(CellSeqSpace("crosstab", (1, 3), {"agg": "count"}, "count", CL))
-        sp.append(CellSeqSpace("crosstab", (1, 3), {"agg": "percentage"}, "percentage", CL))
+        sp.append(CellSeqSpace("crosstab", (1, 3), {"agg": "percentage"}, "percentage", CL, max_blocks=2))
         sp.append(IndependentChunkSpace("2x3", "stats", {}, "default"))
         sp.append(IndependentChunkSpace("2x3", "crosstab", {"agg": "count"}, "count"))
     else:
